@@ -2,6 +2,7 @@ package vh
 
 import (
 	"fmt"
+	"net"
 	"os"
 	"sync"
 	"syscall"
@@ -17,7 +18,9 @@ type c08Case struct {
 	Cause   string `json:"cause"` // sshd_eof | audit_eof | malformed_audit | write_error | sshd_not_fifo:<k> | audit_not_fifo:<k> | sigterm | sigint
 	Load    string `json:"load"`  // idle | saturated
 	DelayMs int    `json:"delay_ms"`
-	Prefix  int    `json:"prefix"` // well-formed sessions delivered before the injection
+	Prefix  int    `json:"prefix"`  // well-formed sessions delivered before the injection
+	Flags   string `json:"flags"`   // "" | audit-metrics | healthz | metrics (optional daemon features)
+	Connect string `json:"connect"` // "" both producers connected | sshd_only | audit_only | none (for signals / EOF of the connected pipe)
 }
 
 var c08Causes = []string{"sshd_eof", "audit_eof", "malformed_audit", "write_error",
@@ -31,6 +34,17 @@ func isMisconfig(cause string) bool { return len(cause) > 9 && (cause[:9] == "ss
 func genC08(rt *rapid.T) c08Case {
 	c := c08Case{Cause: pick(rt, "cause", c08Causes), Load: pick(rt, "load", []string{"idle", "saturated"}),
 		DelayMs: rapid.IntRange(0, 300).Draw(rt, "delay"), Prefix: rapid.IntRange(0, 5).Draw(rt, "prefix")}
+	c.Flags = pick(rt, "flags", []string{"", "", "audit-metrics", "healthz", "metrics"})
+	if !isMisconfig(c.Cause) && c.Cause != "write_error" && rapid.IntRange(0, 3).Draw(rt, "partial") == 0 {
+		c.Connect = pick(rt, "connect", []string{"sshd_only", "audit_only", "none"})
+		switch {
+		case c.Cause == "sshd_eof" && c.Connect != "sshd_only":
+			c.Connect = "sshd_only"
+		case (c.Cause == "audit_eof" || c.Cause == "malformed_audit") && c.Connect != "audit_only":
+			c.Connect = "audit_only"
+		}
+		c.Load = "idle"
+	}
 	return c
 }
 
@@ -52,9 +66,28 @@ func execC08(c c08Case) Outcome {
 	case "write_error":
 		o.Output = "devfull"
 	}
+	switch c.Flags {
+	case "audit-metrics":
+		o.Extra = []string{"-audit-metrics", "-audit-seconds-interval", "1s"}
+	case "healthz":
+		o.Extra = []string{"-healthz"}
+	case "metrics":
+		o.Extra = []string{"-metrics"}
+	}
+	if c.Flags == "healthz" || c.Flags == "metrics" {
+		// the HTTP server binds :2112 — one daemon at a time on this host
+		unlock := lockPort2112()
+		if unlock == nil {
+			return Outcome{Skip: "port_2112_busy"}
+		}
+		defer unlock()
+	}
+	if c.Connect != "" {
+		return execC08Partial(c, o)
+	}
 	d := startDaemon(o)
 	defer d.cleanup()
-	labels := []string{"cause:" + c.Cause, "load:" + c.Load}
+	labels := []string{"cause:" + c.Cause, "load:" + c.Load, "flags:" + c.Flags}
 	misconfig := isMisconfig(c.Cause)
 
 	var sw, aw *os.File
@@ -176,6 +209,83 @@ func execC08(c c08Case) Outcome {
 	return Outcome{NT: c.Load == "saturated" || misconfig, Labels: labels}
 }
 
+// execC08Partial: the fault arrives while an input pipe has no producer
+// connected yet (its worker is still waiting in open(2)).
+func execC08Partial(c c08Case, o daemonOpts) Outcome {
+	d := startDaemon(o)
+	defer d.cleanup()
+	labels := []string{"cause:" + c.Cause, "connect:" + c.Connect, "flags:" + c.Flags}
+	var sw, aw *os.File
+	var err error
+	if c.Connect == "sshd_only" {
+		if sw, err = d.openWriter(d.sshdPipe); err != nil {
+			return fail("%v", err)
+		}
+		defer sw.Close()
+	}
+	if c.Connect == "audit_only" {
+		if aw, err = d.openWriter(d.audPipe); err != nil {
+			return fail("%v", err)
+		}
+		defer aw.Close()
+	}
+	// make sure the daemon is past its start-up (workers waiting in open)
+	time.Sleep(time.Duration(150+c.DelayMs) * time.Millisecond)
+	if code, ok := d.waitExit(0); ok {
+		return fail("daemon exited (status %d) before any fault was injected; stderr: %s", code, tailStr(d.stderrText(), 800))
+	}
+	failure := true
+	switch {
+	case c.Cause == "sigterm":
+		failure = false
+		_ = d.cmd.Process.Signal(syscall.SIGTERM)
+	case c.Cause == "sigint":
+		failure = false
+		_ = d.cmd.Process.Signal(syscall.SIGINT)
+	case c.Cause == "sshd_eof" && sw != nil:
+		sw.Close()
+	case c.Cause == "audit_eof" && aw != nil:
+		aw.Close()
+	case c.Cause == "malformed_audit" && aw != nil:
+		fmt.Fprintln(aw, "this is not an audit record")
+	default:
+		return Outcome{Skip: "cause_needs_the_unconnected_pipe"}
+	}
+	code, ok := d.waitExit(c08Bound)
+	if !ok {
+		dump := d.dumpAndKill()
+		return fail("cause %s while %s (flags %q): the daemon was still running %v after the injection; blocked goroutines:\n%s", c.Cause, c.Connect, c.Flags, c08Bound, dump)
+	}
+	if failure && code == 0 {
+		return fail("cause %s while %s: the daemon exited with status 0", c.Cause, c.Connect)
+	}
+	return Outcome{NT: true, Labels: labels}
+}
+
+// lockPort2112 serialises daemons that bind :2112 across the check's processes.
+func lockPort2112() func() {
+	f, err := os.OpenFile("/tmp/verif-port2112.lock", os.O_CREATE|os.O_RDWR, 0o600)
+	if err != nil {
+		return nil
+	}
+	if err := syscall.Flock(int(f.Fd()), syscall.LOCK_EX); err != nil {
+		f.Close()
+		return nil
+	}
+	// is the port free at all (something else on the host may own it)?
+	if l, err := net.Listen("tcp", ":2112"); err != nil {
+		_ = syscall.Flock(int(f.Fd()), syscall.LOCK_UN)
+		f.Close()
+		return nil
+	} else {
+		l.Close()
+	}
+	return func() {
+		_ = syscall.Flock(int(f.Fd()), syscall.LOCK_UN)
+		f.Close()
+	}
+}
+
 func tailStr(s string, n int) string {
 	if len(s) > n {
 		return s[len(s)-n:]
@@ -199,6 +309,34 @@ func TestC08_Enum(t *testing.T) {
 				if !y(c08Case{Cause: cause, Load: load, DelayMs: 50, Prefix: 2}) {
 					return
 				}
+			}
+		}
+		// the fault arrives while an input pipe has no producer yet
+		for _, pc := range []c08Case{
+			{Cause: "sigterm", Connect: "none"}, {Cause: "sigint", Connect: "sshd_only"}, {Cause: "sigterm", Connect: "audit_only"},
+			{Cause: "sshd_eof", Connect: "sshd_only"}, {Cause: "audit_eof", Connect: "audit_only"}, {Cause: "malformed_audit", Connect: "audit_only"},
+		} {
+			n++
+			if n%sn != si {
+				continue
+			}
+			pc.Load = "idle"
+			if !y(pc) {
+				return
+			}
+		}
+		// optional daemon features enabled (their goroutines must stop too)
+		for _, fc := range []c08Case{
+			{Cause: "sshd_eof", Flags: "audit-metrics"}, {Cause: "malformed_audit", Flags: "audit-metrics"}, {Cause: "sigterm", Flags: "audit-metrics"},
+			{Cause: "audit_eof", Flags: "healthz"}, {Cause: "sigint", Flags: "healthz"}, {Cause: "sshd_eof", Flags: "metrics"},
+		} {
+			n++
+			if n%sn != si {
+				continue
+			}
+			fc.Load, fc.DelayMs, fc.Prefix = "idle", 50, 1
+			if !y(fc) {
+				return
 			}
 		}
 	}, retryFlaky("c08.enum", execC08))
